@@ -680,6 +680,7 @@ namespace {
                 if ( avoid_instant_traffic && instant_pending )
                 {
                     rep.excluded = true;
+                    labels.insert( "excluded:F-21c-traffic-held-back-until-the-instant" );
                     for ( int k = 0; k != 40 && instant_pending && cen.connected() && total_events < max_events; ++k )
                         do_event( {}, i );
                 }
